@@ -19,11 +19,19 @@ pub fn run(ctx: &mut Ctx, prop: &str) {
     match prop {
         "C01" => c01(ctx),
         "C02" => c02(ctx),
-        "C03" => c03(ctx),
+        "C03" => {
+            c03(ctx);
+            // what enters the challenge of the dot-product argument (6 absorbs per polynomial, incl. com_eval) is
+            // part of evaluation binding: the transcript events are compared with the model here as well
+            c11_p(ctx, "C03", 3);
+        }
         "C08" => c08(ctx),
         "C09" => c09(ctx),
         "C10" => c10(ctx),
-        "C11" => c11(ctx),
+        "C11" => {
+            let n = ctx.n(9, 90);
+            c11_p(ctx, "C11", n)
+        }
         "C19" => c19(ctx),
         _ => {}
     }
@@ -697,13 +705,12 @@ fn lockstep_expect(ctx: &mut Ctx, id: &str, c: &Case, what: &str, p: &LogSponge,
     }
 }
 
-fn c11(ctx: &mut Ctx) {
+fn c11_p(ctx: &mut Ctx, prop: &str, n: usize) {
     use ark_crypto_primitives::sponge::CryptographicSponge;
     use ark_poly_commit::{Evaluations, PolynomialCommitment, QuerySet};
     use ark_std::rand::RngCore;
-    let n = ctx.n(9, 90);
     for i in 0..n {
-        let id = format!("C11/hyrax-model/{}", i);
+        let id = format!("{}/hyrax-model/{}", prop, i);
         if !ctx.selected(&id) {
             continue;
         }
@@ -911,7 +918,7 @@ fn c11(ctx: &mut Ctx) {
         ctx.rep.count(&format!("hyrax-model/c11-events-{}", o.sponge.log.len() + sp_p.log.len()));
         ctx.rep.case(&format!("{} lock-step: open + batch over 2 point labels, event logs vs model", c.desc()), Some(format!("hyrax-model/c11/{}/{}", nv, k)));
     }
-    ctx.flush_model("C11-hyrax");
+    ctx.flush_model(&format!("{}-hyrax-transcript", prop));
 }
 
 
